@@ -373,11 +373,35 @@ class Timeout(Exception):
     pass
 
 
+class TooManyTimeouts(Exception):
+    """The implementation stopped answering: the unit is aborted and reported as a correspondence that no longer checks."""
+
+
+_timeouts = [0]
+MAX_TIMEOUTS = 4
+
+
+class deadline:
+    """with deadline(seconds): ...   raises Timeout in the main thread when the block runs too long."""
+    def __init__(self, seconds):
+        self.seconds = max(1, int(seconds))
+
+    def __enter__(self):
+        self.old = signal.signal(signal.SIGALRM, _alarm)
+        signal.alarm(self.seconds)
+        return self
+
+    def __exit__(self, *a):
+        signal.alarm(0)
+        signal.signal(signal.SIGALRM, self.old)
+        return False
+
+
 def _alarm(signum, frame):
     raise Timeout()
 
 
-def call_impl(fn, *args, limit=20, **kw):
+def call_impl(fn, *args, limit=10, **kw):
     """Run the implementation; return ('ok', value) or ('exc', class name)."""
     import warnings
     old = signal.signal(signal.SIGALRM, _alarm)
@@ -387,6 +411,9 @@ def call_impl(fn, *args, limit=20, **kw):
             warnings.simplefilter('ignore')
             return ('ok', fn(*args, **kw))
     except Timeout:
+        _timeouts[0] += 1
+        if _timeouts[0] > MAX_TIMEOUTS:
+            raise TooManyTimeouts('%d calls of the implementation exceeded %d s (last: %s)' % (_timeouts[0], limit, getattr(fn, '__name__', fn)))
         return ('exc', 'Timeout')
     except RecursionError:
         return ('exc', 'RecursionError')
